@@ -116,6 +116,9 @@ inductive Label where
   /-- the harness had to move the environment (open a gate, wake the parser, wait for a sleeper):
       the runner made no progress on its own -/
   | envMove
+  /-- what the real `Summarize` said after the run's events went through it:
+      `execution_has_failed`, failed steps, parsing errors, hook errors -/
+  | verdict (failed : Bool) (failedSteps parseErrs hookErrs : Nat)
   | other
   deriving Repr, DecidableEq
 
@@ -247,6 +250,7 @@ def stepL (c : SCfg) (s : SState) (l : Label) : SState :=
   let s := { s with pos := s.pos + 1 }
   match l with
   | .other => s
+  | .verdict .. => s
   | .rx _ => s
   | .cbIn .. => s
   | .cbOut .. => s
